@@ -28,7 +28,7 @@ func init() {
 	register(&PropertyDef{
 		ID:          "C03",
 		Title:       "Only correctly signed metadata events reach group state and subscribers",
-		Explanation: "Decides structural necessary conditions from the type-checked SSA of /repo: (D1) the event-type table has an entry for every EventType value except Undefined and each entry's checker is of the kind the reference table (DESIGN.md B.1) requires, the kind being derived from the checker's body, and every prototype given to the device checker implements GetDevicePk; (D2) each checker's success returns are dominated by the accepting side of a Verify on the right key, data and signature; (D3) the open function's success returns are dominated by secretbox.Open accepted, table lookup hit and checker returned nil, and the checked payload is the one unmarshalled from the checked bytes and the one returned; (D4) every use of an opened event (index handlers, emitters, listings) is dominated by the nil-error side of the open call, and GroupMetadataEvent values are only built by the opener chain. It does not decide Ed25519 unforgeability nor that a dropped event leaves the state unchanged beyond 'handler not invoked'.",
+		Explanation: "Decides structural necessary conditions from the type-checked SSA of /repo: (D1) the event-type table has an entry for every EventType value except Undefined and each entry's checker is of the kind the reference table (DESIGN.md B.1) requires, the kind being derived from the checker's body, and every prototype given to the device checker implements GetDevicePk; (D2) each checker's success returns are dominated by the accepting side of a Verify on the right key, data and signature (a Verify inside a module helper whose success returns all pass it counts, with the helper's parameters mapped to the call's arguments); (D3) every root-package function that hands out a decoded (*GroupMetadata, payload, error) from the group secretbox.Open has all its success returns pass - directly or through callees whose own success returns all pass it and whose error it accepts - secretbox.Open accepted with the group's secret, the event-type table hit, and the table entry's checker returned nil; the checked metadata and payload are the ones handed out, the payload is unmarshalled from the checked metadata's Payload bytes, and the checker gets the group being opened; a decode-only helper (no checker call) must be unexported and every caller must apply the checker to the values it received from it; (D4) every use of an opened event (index handlers, emitters, listings) is dominated by the nil-error side of the open call, and GroupMetadataEvent values are only built by the opener chain. It does not decide Ed25519 unforgeability nor that a dropped event leaves the state unchanged beyond 'handler not invoked'.",
 		Trusted:     []string{"golang.org/x/tools go/packages+go/ssa (v0.29.0)", "libp2p crypto.PubKey.Verify and nacl/secretbox semantics", "go/types"},
 		Assumptions: []string{"dependencies behave as documented; only module code is analysed"},
 		Floors:      map[string]int{"D1": 21, "D2": 3, "D3": 4, "D4": 3},
@@ -40,6 +40,8 @@ func init() {
 type verifyShape struct {
 	Site           ssa.CallInstruction
 	Key, Data, Sig RootSet
+	Verdict        ssa.Value     // the value whose acceptance means "verified" (bool ok, or a helper's error)
+	Via            *ssa.Function // helper that performs the Verify, nil when direct
 }
 
 func paramRoots(rs RootSet, fn *ssa.Function) []string {
@@ -85,12 +87,12 @@ func hasPrefixIn(list []string, s string) bool {
 func verifyShapes(w *World, fn *ssa.Function) []verifyShape {
 	var out []verifyShape
 	cfg := provCfg{W: w, InlineResults: true}
-	for _, ci := range callsIn(fn, keyIs(keyVerify)) {
-		cc := ci.Common()
-		if len(cc.Args) < 2 {
-			continue
+	for _, s := range verifySitesIn(fn, 2) {
+		vs := verifyShape{Site: s.Call, Key: rootsOf(cfg, s.Key), Data: rootsOf(cfg, s.Data), Sig: rootsOf(cfg, s.Sig), Via: s.Via}
+		if len(s.Verdicts) > 0 && (s.Via != nil || boolVerdict(s.Call) != nil) {
+			vs.Verdict = s.Verdicts[0]
 		}
-		out = append(out, verifyShape{Site: ci, Key: rootsOf(cfg, cc.Value), Data: rootsOf(cfg, cc.Args[0]), Sig: rootsOf(cfg, cc.Args[1])})
+		out = append(out, vs)
 	}
 	return out
 }
@@ -122,12 +124,16 @@ func checkerKinds(w *World, fn *ssa.Function, memo map[*ssa.Function]map[string]
 			continue
 		}
 		// the ok verdict must dominate the success returns and its failure must reject
-		okv := boolVerdict(vs.Site)
+		okv := vs.Verdict
 		if okv == nil {
 			*why = append(*why, fnName(fn)+": Verify result discarded")
 			continue
 		}
-		if by := bypassReturns(fn, edgesOfVerdict(okv).Accept, nil); len(by) > 0 {
+		var tail []ssa.Value
+		if isErrorType(okv.Type()) {
+			tail = []ssa.Value{okv} // returning a verify helper's error as one's own is acceptance-or-reject too
+		}
+		if by := bypassReturns(fn, edgesOfVerdict(okv).Accept, tail); len(by) > 0 {
 			*why = append(*why, fmt.Sprintf("%s: a success return bypasses the %s Verify", fnName(fn), kind))
 			continue
 		}
@@ -407,12 +413,16 @@ func runC03(c *Ctx) {
 		}
 		// A3 on every Verify in the function: ok and err
 		allOK := true
-		for _, ci := range callsIn(fn, keyIs(keyVerify)) {
-			for _, v := range []ssa.Value{boolVerdict(ci), errVerdict(ci)} {
+		for _, site := range verifySitesIn(fn, 2) {
+			vds := site.Verdicts
+			if site.Via == nil {
+				vds = []ssa.Value{boolVerdict(site.Call), errVerdict(site.Call)}
+			}
+			for _, v := range vds {
 				r := rejectOnFailure(fn, v)
 				if !r.OK {
 					allOK = false
-					c.fail("D2", construct+"+Verify", posOf(ci), "Verify verdict: %s", r.Why)
+					c.fail("D2", construct+"+Verify", posOf(site.Call), "Verify verdict: %s", r.Why)
 				}
 			}
 		}
@@ -420,223 +430,9 @@ func runC03(c *Ctx) {
 			c.ok("D2", construct, fn.Pos(), "success returns dominated by accepting Verify of kind {%s}; failures reject", kindsString(kinds))
 		}
 	}
-	// ---- D3: the open function(s)
-	// decoders: functions that open the group box and hand out a *GroupMetadata with an error
-	var checkerSig *types.Signature
-	if mt, ok := global.Type().Underlying().(*types.Map); ok {
-		if st, ok := mt.Elem().Underlying().(*types.Struct); ok {
-			for fi := 0; fi < st.NumFields(); fi++ {
-				if sg, isSig := st.Field(fi).Type().Underlying().(*types.Signature); isSig {
-					checkerSig = sg
-				}
-			}
-		}
-	}
-	isCheckerCall := func(x *ssa.Call) bool {
-		if staticCallee(x.Common()) != nil || x.Common().IsInvoke() {
-			return false
-		}
-		if checkerSig != nil && types.Identical(x.Common().Value.Type().Underlying(), checkerSig) {
-			return true
-		}
-		return rootsOf(provCfg{W: w}, x.Common().Value)["global:"+globalName(w, global)]
-	}
-	checkerCallsIn := func(fn *ssa.Function) []*ssa.Call {
-		var out []*ssa.Call
-		for _, b := range fn.Blocks {
-			for _, in := range b.Instrs {
-				if x, ok := in.(*ssa.Call); ok && isCheckerCall(x) {
-					out = append(out, x)
-				}
-			}
-		}
-		return out
-	}
-	var decoders []*ssa.Function
-	for _, fn := range w.ModFuncs {
-		nres := fn.Signature.Results().Len()
-		if fnPkg(fn).Path() != pkgRoot || nres < 3 {
-			continue
-		}
-		if !isNamed(fn.Signature.Results().At(0).Type(), pkgTypes, "GroupMetadata") || !isErrorType(fn.Signature.Results().At(nres-1).Type()) {
-			continue
-		}
-		if len(callsIn(fn, keyIs(keySBOpen))) > 0 {
-			decoders = append(decoders, fn)
-		}
-	}
-	sort.Slice(decoders, func(i, j int) bool { return decoders[i].String() < decoders[j].String() })
-	if len(decoders) == 0 {
-		c.undecided("D3", "open function", token.NoPos, "no function in %s calls secretbox.Open and returns (*GroupMetadata, proto.Message, ..., error)", pkgRoot)
-		return
-	}
-	if len(decoders) > 1 {
-		c.note("several functions open group envelopes: %d", len(decoders))
-	}
-	// enforce: in function h, the checker call `call` is accepted on every success return, is
-	// given group gv, and the success returns hand out exactly the checked metadata and payload
-	enforce := func(h *ssa.Function, call *ssa.Call, gv ssa.Value, on string) bool {
-		v := errVerdict(call)
-		okc := v != nil
-		var by []*ssa.Return
-		why := "checker result discarded"
-		if okc {
-			by = bypassReturns(h, edgesOfVerdict(v).Accept, []ssa.Value{v})
-			r := rejectOnFailure(h, v)
-			okc = r.OK && len(by) == 0
-			why = r.Why + " bypass=" + describeReturns(c, by)
-		}
-		c.check(okc, "D3", on+"+checker-call", posOf(call), "checker returned nil on every success path", "checker verdict not enforced: "+why)
-		args := call.Common().Args
-		if len(args) != 3 {
-			c.fail("D3", on+"+checker-call.args", posOf(call), "checker called with %d arguments, expected (group, metadata, payload)", len(args))
-			return false
-		}
-		same := true
-		for _, r := range returnsOf(h) {
-			if !isSuccessReturn(r) {
-				continue
-			}
-			if stripConv(retResults(r)[0]) != stripConv(args[1]) || stripConv(retResults(r)[1]) != stripConv(args[2]) {
-				same = false
-			}
-		}
-		c.check(same, "D3", on+"+returned=checked", posOf(call), "the returned metadata and payload are the checked ones", "a success return hands out values other than those given to the checker")
-		c.check(stripConv(args[0]) == stripConv(gv), "D3", on+"+group-arg", posOf(call), "checker receives the group being opened", "checker is called with a different group than the one being opened")
-		return okc && same
-	}
-	// payloadSource: in decoder f, the payload value p is unmarshalled from m.Payload
-	payloadSource := func(f *ssa.Function, m, p ssa.Value) bool {
-		for _, u := range callsIn(f, keyIs(keyProtoU)) {
-			ua := u.Common().Args
-			if len(ua) == 2 && stripConv(ua[1]) == stripConv(p) {
-				if ap, ok := accessPathLocal(ua[0]); ok && ap.Base == stripConv(m) && ap.Path == ".Payload" {
-					return true
-				}
-			}
-		}
-		return false
-	}
-	openers := map[*ssa.Function]bool{}
-	decoderSet := map[*ssa.Function]bool{}
-	for _, opener := range decoders {
-		decoderSet[opener] = true
-		c.analysed(opener)
-		on := fnName(opener)
-		// (a) secretbox.Open accepted
-		for _, ci := range callsIn(opener, keyIs(keySBOpen)) {
-			okv := boolVerdict(ci)
-			r := rejectOnFailure(opener, okv)
-			by := []*ssa.Return(nil)
-			if okv != nil {
-				by = bypassReturns(opener, edgesOfVerdict(okv).Accept, nil)
-			}
-			c.check(r.OK && len(by) == 0 && okv != nil, "D3", on+"+secretbox.Open", posOf(ci), "box open accepted on every success path; failure rejects", "secretbox.Open verdict not enforced: "+r.Why+" bypass="+describeReturns(c, by))
-			// secret comes from the group parameter
-			if len(ci.Common().Args) == 4 {
-				rs := rootsOf(provCfg{W: w, InlineResults: true}, ci.Common().Args[3])
-				pr := paramRoots(rs, opener)
-				c.check(hasPrefixIn(pr, "p0.Secret") || has(pr, "p0"), "D3", on+"+secretbox.Open.key", posOf(ci), "box key derives from the group parameter", fmt.Sprintf("box key does not derive from the group's secret: %v", rs.list()))
-			}
-		}
-		// (b) table lookup hit
-		var lookups []*ssa.Lookup
-		for _, b := range opener.Blocks {
-			for _, in := range b.Instrs {
-				if x, ok := in.(*ssa.Lookup); ok && isGlobalLoad(x.X, global) {
-					lookups = append(lookups, x)
-				}
-			}
-		}
-		if len(lookups) == 0 {
-			c.undecided("D3", on+"+lookup", opener.Pos(), "the open function does not look the event type up in the table %s", global.Name())
-		}
-		for _, l := range lookups {
-			if !l.CommaOk {
-				c.fail("D3", on+"+lookup", l.Pos(), "table lookup without presence test: an unknown type yields a zero entry")
-				continue
-			}
-			exs := extractsOf(l, 1)
-			okc := len(exs) > 0
-			if okc {
-				by := bypassReturns(opener, edgesOfVerdict(exs[0]).Accept, nil)
-				r := rejectOnFailure(opener, exs[0])
-				okc = r.OK && len(by) == 0
-			}
-			c.check(okc, "D3", on+"+lookup", l.Pos(), "unknown event types are rejected", "a success return is reachable without a table hit (unknown type accepted)")
-		}
-		// (c) checker call accepted: in the decoder itself, or in every function that calls it
-		checkerCalls := checkerCallsIn(opener)
-		if len(checkerCalls) > 0 {
-			verified := true
-			for _, call := range checkerCalls {
-				if !enforce(opener, call, opener.Params[0], on) {
-					verified = false
-				}
-				if args := call.Common().Args; len(args) == 3 {
-					c.check(payloadSource(opener, args[1], args[2]), "D3", on+"+payload-source", posOf(call), "payload decoded from the very bytes the checker verifies (metadata.Payload)", "the payload given to the checker is not decoded from metadata.Payload of the checked metadata")
-				}
-			}
-			if verified {
-				openers[opener] = true
-			}
-			continue
-		}
-		// a decoder that leaves the signature check to its callers
-		c.note("%s decodes group envelopes without calling the checker itself: every caller is required to", on)
-		if ast.IsExported(opener.Name()) {
-			c.fail("D3", on+"+checker-call", opener.Pos(), "an exported function hands out decoded metadata events without applying the signature checker of the table entry")
-		}
-		srcOK := false
-		for _, r := range returnsOf(opener) {
-			if isSuccessReturn(r) && payloadSource(opener, retResults(r)[0], retResults(r)[1]) {
-				srcOK = true
-			} else if isSuccessReturn(r) {
-				srcOK = false
-				break
-			}
-		}
-		c.check(srcOK, "D3", on+"+payload-source", opener.Pos(), "the returned payload is decoded from the returned metadata's Payload bytes", "the payload handed out is not decoded from metadata.Payload of the metadata handed out")
-		callers := w.callGraph().callers[opener]
-		if len(callers) == 0 {
-			c.fail("D3", on+"+checker-call", opener.Pos(), "the open function never calls the checker stored in the table entry, and nothing in the module calls it")
-		}
-		for _, cs := range callers {
-			g := cs.Caller
-			c.analysed(g)
-			gon := fnName(g) + "->" + on
-			fcall, _ := cs.Instr.(*ssa.Call)
-			var mine []*ssa.Call
-			if fcall != nil {
-				for _, cc := range checkerCallsIn(g) {
-					a := cc.Common().Args
-					if len(a) != 3 {
-						continue
-					}
-					m, mok := stripConv(a[1]).(*ssa.Extract)
-					p, pok := stripConv(a[2]).(*ssa.Extract)
-					if mok && pok && m.Tuple == ssa.Value(fcall) && m.Index == 0 && p.Tuple == ssa.Value(fcall) && p.Index == 1 {
-						mine = append(mine, cc)
-					}
-				}
-			}
-			if len(mine) == 0 {
-				c.fail("D3", gon+"+checker-call", posOf(cs.Instr), "%s obtains a decoded metadata event from %s and never applies the signature checker of its table entry to it: an event with a missing or foreign signature is handed on", fnName(g), on)
-				continue
-			}
-			verified := true
-			for _, cc := range mine {
-				if !enforce(g, cc, fcall.Common().Args[0], gon) {
-					verified = false
-				}
-			}
-			if verified {
-				openers[g] = true
-			}
-		}
-	}
-	if len(openers) == 0 {
-		c.fail("D3", "open function+verified", token.NoPos, "no function opens group envelopes with the signature checker enforced")
+	// ---- D3: the open function(s) (c03_open.go)
+	openers, decoderSet, okOpen := c03Openers(c, global)
+	if !okOpen {
 		return
 	}
 	// ---- D4: consumers use opened events only on the nil-error side
